@@ -322,6 +322,10 @@ pub fn r_opt_iter_bytes(s: &str) -> usize {
     let c = s.chars().nth(1).map(|c| c as usize).unwrap_or(7);
     a * 1000000 + b * 7 + c
 }
+pub fn r_u8_class(s: &str) -> usize {
+    s.bytes().map(|b| (b.is_ascii_uppercase() as usize) + 2 * (b.is_ascii_digit() as usize) + 4 * (b.is_ascii_punctuation() as usize) + 8 * (b.is_ascii_whitespace() as usize)
+        + (b.to_ascii_lowercase() as usize) * 16 + (b.to_ascii_uppercase() as usize)).sum()
+}
 pub fn r_clone_from(s: &str) -> String {
     let mut a = String::from("old");
     let b = s.to_string();
@@ -349,6 +353,7 @@ mod probe_native {
             let s: &str = s;
             println!("PROBE\tp_find_digit\t{}\t{:?}", i, p_find_digit(s));
             println!("PROBE\tr_clone_from\t{}\t{:?}", i, r_clone_from(s));
+            println!("PROBE\tr_u8_class\t{}\t{:?}", i, r_u8_class(s));
             println!("PROBE\tr_opt_iter_bytes\t{}\t{:?}", i, r_opt_iter_bytes(s));
             println!("PROBE\tr_ends_with_slice\t{}\t{:?}", i, r_ends_with_slice(s));
             println!("PROBE\tr_default\t{}\t{:?}", i, r_default(s));
